@@ -3,12 +3,12 @@ must satisfy the assertions, and every model of the assertions must extend (over
 the roots. Models are proposed by z3 (untrusted) and every one of them is validated by the Lean evaluator."""
 import multiprocessing as mp, os, random, subprocess
 from fractions import Fraction
-import common, gen, runner, trace, smtlib, extsolve
+import common, gen, runner, trace, smtlib, extsolve, certify
 from c14 import RichProblem
 
 THEOREMS = ["Osmt.Properties.C13_subst_eval", "Osmt.Properties.C13_subst_equiv", "Osmt.Properties.C13_distinct_expand",
             "Osmt.Properties.C13_eq_split", "Osmt.Properties.C13_divmod_axioms", "Osmt.Properties.C13_ite_definition", "Osmt.Properties.C13_extension_wf"]
-LOGICS = ["QF_BOOL", "QF_LRA", "QF_LIA", "QF_RDL", "QF_IDL", "QF_LIA", "QF_LRA"]
+LOGICS = ["QF_BOOL", "QF_LRA", "QF_LIA", "QF_UF", "QF_RDL", "QF_IDL", "QF_LIA", "QF_UFLRA", "QF_LRA", "QF_UF", "QF_UFLIA"]
 
 
 def z3_model(decls, asserts, timeout=8):
@@ -77,18 +77,33 @@ def run_case(args):
     p = RichProblem(logic, rng) if idx % 2 == 0 else gen.Problem(logic, rng)
     lines = [f"(set-option {o})" for o in opts] + [p.set_logic()] + p.decls
     depth = 0
+
+    def fla():
+        f = p.fla(rng.randint(1, 3))
+        c = rng.random()
+        if c < 0.3 and p.nums:                     # equalities that preprocessing turns into substitutions
+            x = rng.choice(p.nums)
+            f = ("app", "=", "Bool", [x, p.nterm(2)])
+        elif c < 0.4:                              # Boolean units / definitions
+            b = rng.choice(p.bools)
+            f = b if c < 0.33 else (("app", "not", "Bool", [b]) if c < 0.36 else ("app", "=", "Bool", [b, p.fla(1)]))
+        elif c < 0.45:
+            f = ("var", "true", "Bool")
+        return f
+
     for _ in range(rng.randint(6, 16)):
         c = rng.random()
-        if c < 0.12 and depth < 3:
+        if c < 0.10 and depth < 3:
             lines.append("(push 1)"); depth += 1
-        elif c < 0.2 and depth > 0:
+        elif c < 0.18 and depth > 0:
             lines.append("(pop 1)"); depth -= 1
-        elif c < 0.8:
-            f = p.fla(rng.randint(1, 3))
-            if rng.random() < 0.3 and p.nums:            # equalities that preprocessing turns into substitutions
-                x = rng.choice(p.nums)
-                f = ("app", "=", "Bool", [x, p.nterm(2)])
-            lines.append(f"(assert {gen.smt(f)})")
+        elif c < 0.24 and depth < 3:
+            # an empty or unchecked frame, then a checked frame that is popped, then a fresh frame over the same symbols
+            lines += ["(push 1)"] + ([f"(assert {gen.smt(fla())})"] if rng.random() < 0.5 else []) + ["(pop 1)"]
+            lines += ["(push 1)", f"(assert {gen.smt(fla())})", "(check-sat)", "(pop 1)"]
+            lines += ["(push 1)", f"(assert {gen.smt(fla())})"]; depth += 1
+        elif c < 0.82:
+            lines.append(f"(assert {gen.smt(fla())})")
         else:
             lines.append("(check-sat)")
     lines.append("(check-sat)")
@@ -96,7 +111,8 @@ def run_case(args):
     tp = common.WORK / f"c13-{os.getpid()}.trace"
     tp.unlink(missing_ok=True)
     out, err, rc = runner.run_opensmt(binary, script, tp, timeout=20)
-    res = {"idx": idx, "logic": logic, "options": opts, "script": script, "problems": [], "checks": 0, "models": 0, "skipped": 0}
+    res = {"idx": idx, "logic": logic, "options": opts, "script": script, "problems": [], "checks": 0, "models": 0, "skipped": 0,
+           "stats": {}}
     if rc == "timeout" or not tp.exists():
         return res
     tr = trace.Trace(tp)
@@ -106,9 +122,17 @@ def run_case(args):
         return res
     S = tr.solvers[sid]
     tt = tr.logics[S.logic]
-    decls = ["(set-logic ALL)"] + tt.declarations()
+    decls = tt.declarations()
+    logic_line = p.set_logic()
     levels, active = [[]], []
     roots = {}                 # frame id -> list of root term idx
+    seen_pairs = set()
+
+    def decide(texts):
+        v = certify.verdict(decls, texts, logic_line, binary)
+        res["stats"][v] = res["stats"].get(v, 0) + 1
+        return v
+
     for e in tr.merged(sid):
         if e[1] == "as":
             while len(levels) <= e[3]:
@@ -127,54 +151,40 @@ def run_case(args):
         elif e[1] == "res" and e[3] in ("sat", "unsat"):
             A = [t for lv in levels for t in lv]
             R = [t for f in [0] + active for t in roots.get(f, [])]
-            if not A:
+            key = (tuple(A), tuple(R))
+            if not A or key in seen_pairs:
                 continue
+            seen_pairs.add(key)
             res["checks"] += 1
             Atxt, Rtxt = [tt.smt(t) for t in A], [tt.smt(t) for t in R]
-            # (1) models of the roots satisfy the assertions
-            st, m = z3_model(decls, Rtxt)
-            if st == "sat" and m is not None:
-                vals = lean_eval_trace_terms(tt, m, R + A)
+            # (1) every model of the roots satisfies the assertions: look for a model of R and not A
+            negA = "(not (and " + " ".join(Atxt) + " true))"
+            v1 = decide(Rtxt + [negA])
+            if v1 == "sat-certified":
+                res["problems"].append({"what": "a model of the formula handed to the engine falsifies an asserted formula (the model "
+                                        "of roots + not(assertions) printed by opensmt is validated by the Lean evaluator)",
+                                        "roots": Rtxt[:8], "assertions": Atxt[:8], "kind": "model"})
+                continue
+            if v1.startswith("unsat"):
                 res["models"] += 1
-                if len(vals) == len(R) + len(A) and all(v == "b:true" for v in vals[:len(R)]):
-                    bad = [j for j, v in enumerate(vals[len(R):]) if v != "b:true"]
-                    if bad:
-                        res["problems"].append({"what": f"a model of the formula handed to the engine falsifies asserted formula "
-                                                f"#{bad[0]} (validated by the Lean evaluator)", "assertion": Atxt[bad[0]],
-                                                "model": {k: str(v) for k, v in m.items()}, "roots": Rtxt[:6]})
+            # (2) the roots are satisfiable when the assertions are
+            vA = decide(Atxt)
+            if vA == "sat-certified":
+                vR = decide(Rtxt)
+                if vR.startswith("unsat"):
+                    z = extsolve.z3_run("\n".join(["(set-logic ALL)"] + decls + [f"(assert {r})" for r in Rtxt] + ["(check-sat)"]) + "\n", 10)
+                    if z.strip().startswith("unsat"):
+                        res["problems"].append({"what": f"the asserted formulas have a model (validated by the Lean evaluator) but the formula "
+                                                f"handed to the engine is unsatisfiable ({vR}; z3 agrees)",
+                                                "roots": Rtxt[:8], "assertions": Atxt[:8], "kind": "equisat"})
                         continue
-                else:
                     res["skipped"] += 1
-            elif st == "sat":
-                res["skipped"] += 1
-            # (2) a model of the assertions extends to a model of the roots
-            st2, m2 = z3_model(decls, Atxt)
-            if st2 == "sat" and m2 is not None:
-                user = {name: v for name, v in m2.items() if not name.startswith(".")}
-                fix = []
-                for (name, srt, ar), k in tt.decl.items():
-                    if ar == 0 and name in user:
-                        nm = name if name.replace("_", "a").replace(".", "a").isalnum() else f"|{name}|"
-                        fix.append(f"(= {nm} {value_smt(user[name], srt)})")
-                st3, m3 = z3_model(decls, Rtxt + fix)
-                if st3 == "sat" and m3 is not None:
-                    vals = lean_eval_trace_terms(tt, m3, R + A)
+                elif vR == "sat-certified":
                     res["models"] += 1
-                    if len(vals) == len(R) + len(A) and not all(v == "b:true" for v in vals):
-                        res["skipped"] += 1           # z3's own model does not validate: not evidence about opensmt
-                elif st3 == "unsat":
-                    # make sure the fixed values really satisfy the assertions (Lean) before blaming preprocessing
-                    vals = lean_eval_trace_terms(tt, user, A)
-                    if len(vals) == len(A) and all(v == "b:true" for v in vals):
-                        res["problems"].append({"what": "a model of the asserted formulas (validated by the Lean evaluator) cannot be "
-                                                "extended to the formula handed to the engine (z3: unsat, uncertified)",
-                                                "model": {k: str(v) for k, v in user.items()}, "roots": Rtxt[:6], "assertions": Atxt[:6]})
-                    else:
-                        res["skipped"] += 1
                 else:
                     res["skipped"] += 1
-            if e[3] == "unsat" and st2 == "sat" and m2 is not None:
-                pass
+            elif not vA.startswith("unsat"):
+                res["skipped"] += 1
     return res
 
 
@@ -182,23 +192,27 @@ def run(tier):
     chk = common.Check("C13", tier)
     chk.lean_obligations(THEOREMS)
     binary = common.opensmt_bin("hooks")
-    n = 110 if tier == "quick" else 3000
+    n = 130 if tier == "quick" else 3000
     with mp.Pool(min(common.JOBS, 14)) as pool:
         results = pool.map(run_case, [(i, chk.seed, binary) for i in range(n)], chunksize=2)
     checks = models = skipped = 0
+    stats = {}
     for r in results:
         checks += r["checks"]; models += r["models"]; skipped += r["skipped"]
+        for k, v in r["stats"].items():
+            stats[k] = stats.get(k, 0) + v
         chk.case(key=(r["idx"], r["checks"], r["models"]), nontrivial=r["models"] > 0,
-                 sample={"logic": r["logic"], "options": r["options"], "checks": r["checks"], "models": r["models"]} if r["models"] else None)
+                 sample={"logic": r["logic"], "options": r["options"], "checks": r["checks"], "settled": r["models"]} if r["models"] else None)
         chk.obligation(not r["problems"])
         if r["checks"]:
             chk.cov["traces_validated_against_impl"] += 1
         for pr in r["problems"][:1]:
             chk.violation("preprocessing", f"{pr['what']} ({r['logic']} {r['options']})", {"script": r["script"], "problem": pr})
-    chk.assumptions = ["models are proposed by z3 and counted only when the Lean evaluator validates them; a z3 `unsat` used to report "
-                       "that a model does not extend is uncertified and labelled so", "logics with uninterpreted functions are not in this corpus"]
-    return chk.finish(rule="one case = one history; at every check the conjunction of the roots handed to the engine for the active "
-                           "levels is compared with the asserted formulas of those levels: models of the roots must satisfy the "
-                           "assertions, models of the assertions must extend over the auxiliary symbols to models of the roots; "
-                           "non-trivial = at least one model validated in Lean",
-                      extra={"checks_compared": checks, "models_validated": models, "inconclusive": skipped})
+    chk.assumptions = ["a violation is reported only on a model validated by the Lean evaluator (roots + not assertions, or the assertions "
+                       "alone with the roots refuted by opensmt and by z3); `unsat` verdicts mean that no counterexample was found",
+                       "array logics are not in this corpus"]
+    return chk.finish(rule="one case = one incremental history (substitution-friendly equalities, Boolean units, empty / unchecked / "
+                           "popped frames; whole-frame and per-partition modes); at every check the conjunction R of the roots handed to "
+                           "the engine for the active levels is compared with the asserted formulas A of those levels: R and not A must have "
+                           "no model, and if A has a validated model R must be satisfiable; non-trivial = at least one comparison settled",
+                      extra={"checks_compared": checks, "comparisons_settled": models, "inconclusive": skipped, "verdicts": stats})
